@@ -4,3 +4,17 @@ package middleware
 
 // VerifAutoWire exposes Pipeline.autoWire (accessor only).
 func VerifAutoWire(p *Pipeline) { p.autoWire() }
+
+// VerifQueryerNames lists, in order, the handlers of the sub-pipeline a
+// pipeline queryer dispatches into (accessor only).
+func VerifQueryerNames(q Queryer) []string {
+	pq, ok := q.(*pipelineQueryer)
+	if !ok || pq == nil || pq.sub == nil {
+		return nil
+	}
+	var out []string
+	for _, h := range pq.sub.handlers {
+		out = append(out, h.Name())
+	}
+	return out
+}
